@@ -270,13 +270,14 @@ func DecodeSetup(js string) (*Setup, error) {
 				Oblig []string        `json:"oblig"`
 				Fns   json.RawMessage `json:"fns"`
 			} `json:"cfg"`
-			Bundle map[string]*core.Tmpl        `json:"bundle"`
-			Data   map[string]map[string]core.V `json:"data"`
-			IJ     core.V                       `json:"ij"`
-			Expr   core.E                       `json:"expr"`
-			Files  []string                     `json:"files"`
-			IJB    core.V                       `json:"ijb"`
-			Switch []struct {
+			Bundle  map[string]*core.Tmpl        `json:"bundle"`
+			Data    map[string]map[string]core.V `json:"data"`
+			IJ      core.V                       `json:"ij"`
+			Expr    core.E                       `json:"expr"`
+			Files   []string                     `json:"files"`
+			IJB     core.V                       `json:"ijb"`
+			Globals map[string]core.V            `json:"globals"`
+			Switch  []struct {
 				Name  string          `json:"name"`
 				Oblig []string        `json:"oblig"`
 				Sfx   json.RawMessage `json:"sfx"`
@@ -312,7 +313,7 @@ func DecodeSetup(js string) (*Setup, error) {
 	if strings.Join(names, ",") != strings.Join(want, ",") {
 		return nil, fmt.Errorf("files of the model %v are not the unparsed files %v", want, names)
 	}
-	in := &Inputs{Files: files, Data: s.Data, IJ: s.IJ, ExprSrc: core.Unparse(s.Expr, core.Style{})}
+	in := &Inputs{Files: files, Data: s.Data, IJ: s.IJ, ExprSrc: core.Unparse(s.Expr, core.Style{}), Globals: s.Globals}
 	st := &Setup{Cfg: cfg, Inputs: in, Prog: prog, IJB: s.IJB}
 	objOf := func(raw json.RawMessage) (map[string]string, error) { // an empty function is printed as []
 		m := map[string]string{}
